@@ -78,6 +78,9 @@ func (g *genCtx) arq(maxPayload int) Ev {
 	if g.r.Chance(0.01) {
 		n = 0 // count = 3: a frame with the type and nothing else
 	}
+	if g.serial && (n+9)%4096 == 1 {
+		n++ // that size belongs to the "split" regime (see regimeOf)
+	}
 	if n > g.maxFrame {
 		g.maxFrame = n
 	}
@@ -448,6 +451,15 @@ func genC14(tier string, r *core.Rand) Plan {
 			flen := len(e.Arg) + 5
 			if e.Kind == "arq" {
 				flen = e.Size + 9
+			}
+			if e.Kind == "arq" && r.Chance(0.25) {
+				// no cut at all: a frame of k*4096+1 bytes
+				e.Size = r.Range(1, 15)*4096 - 8
+				if e.Size > g.maxFrame {
+					g.maxFrame = e.Size
+				}
+				g.big = true
+				continue
 			}
 			switch r.Pick(4, 2, 2, 2) {
 			case 0:
